@@ -1,14 +1,157 @@
 //go:build verif
 
-// Contracts for package segment, read by /verif's govc (see /verif/DESIGN.md). Comment-only.
+// Contracts for package segment, read by /verif's govc (see /verif/DESIGN.md). Besides //@ comments this file holds
+// ghost lemma functions (compiled only under the verif tag, never called by the library).
 package segment
+
+import "bytes"
+
+// ---- byte-level vocabulary -----------------------------------------------------------------------------------
+// wle3/wle5: the little-endian value of the 3/5 bytes written to w at absolute offset off; rle3/rle5: the same for
+// the bytes a reader will deliver.
+
+//@ spec wle3(w io.Writer, off int) uint64 = uint64(wbyte(w, off)) | uint64(wbyte(w, off+1)) << 8 | uint64(wbyte(w, off+2)) << 16
+//@ spec wle5(w io.Writer, off int) uint64 = uint64(wbyte(w, off)) | uint64(wbyte(w, off+1)) << 8 | uint64(wbyte(w, off+2)) << 16 | uint64(wbyte(w, off+3)) << 24 | uint64(wbyte(w, off+4)) << 32
+//@ spec rle3(r io.Reader, off int) uint64 = uint64(rbyte(r, off)) | uint64(rbyte(r, off+1)) << 8 | uint64(rbyte(r, off+2)) << 16
+//@ spec rle5(r io.Reader, off int) uint64 = uint64(rbyte(r, off)) | uint64(rbyte(r, off+1)) << 8 | uint64(rbyte(r, off+2)) << 16 | uint64(rbyte(r, off+3)) << 24 | uint64(rbyte(r, off+4)) << 32
+
+// v5 spec section 2.1: payload length (17 bits) | self-contained flag (bit 17), 3 bytes little-endian.
+//@ spec hdrU(h *Header) uint64 = uint64(h.UncompressedPayloadLength) | ite(h.IsSelfContained, uint64(131072), uint64(0))
+// v5 spec section 2.2: compressed length (17 bits) | uncompressed length (17 bits) << 17 | flag (bit 34), 5 bytes.
+//@ spec hdrC(h *Header) uint64 = uint64(h.CompressedPayloadLength) | uint64(h.UncompressedPayloadLength) << 17 | ite(h.IsSelfContained, uint64(17179869184), uint64(0))
+//@ spec lensOk(h *Header) bool = 0 <= h.CompressedPayloadLength && h.CompressedPayloadLength <= 131071 && 0 <= h.UncompressedPayloadLength && h.UncompressedPayloadLength <= 131071
+
+// ---- write side ----------------------------------------------------------------------------------------------
+
+//@ func (*codec).writeHeaderDataAndCrc
+//@   prop C06
+//@   assigns wstream(dest)
+//@   requires hdrlen: headerLength == 3 || headerLength == 5
+//@   unroll #0 5
+//@   unroll #1 3
+//@   let w0 = written(dest)
+//@   ensures length: err == nil ==> written(dest) == w0 + headerLength + 3
+//@   ensures data3: err == nil && headerLength == 3 ==> wle3(dest, w0) == headerData & 0xFFFFFF && wle3(dest, w0 + 3) == uint64(crc.ChecksumKoopman(headerData, 3))
+//@   ensures data5: err == nil && headerLength == 5 ==> wle5(dest, w0) == headerData & 0xFFFFFFFFFF && wle3(dest, w0 + 5) == uint64(crc.ChecksumKoopman(headerData, 5))
+
+//@ func (*codec).encodeHeaderUncompressed
+//@   prop C06
+//@   assigns wstream(dest)
+//@   requires lens: lensOk(header)
+//@   let w0 = written(dest)
+//@   ensures layout: err == nil ==> written(dest) == w0 + 6 && wle3(dest, w0) == hdrU(header) && wle3(dest, w0 + 3) == uint64(crc.ChecksumKoopman(hdrU(header), 3))
+
+//@ func (*codec).encodeHeaderCompressed
+//@   prop C06
+//@   assigns wstream(dest)
+//@   requires lens: lensOk(header)
+//@   let w0 = written(dest)
+//@   ensures layout: err == nil ==> written(dest) == w0 + 8 && wle5(dest, w0) == hdrC(header) && wle3(dest, w0 + 5) == uint64(crc.ChecksumKoopman(hdrC(header), 5))
+
+//@ func (*codec).writePayloadCrc
+//@   prop C06
+//@   assigns wstream(dest)
+//@   let w0 = written(dest)
+//@   ensures layout: err == nil ==> written(dest) == w0 + 4 && wbyte(dest, w0) == uint8(payloadCrc) && wbyte(dest, w0+1) == uint8(payloadCrc >> 8) && wbyte(dest, w0+2) == uint8(payloadCrc >> 16) && wbyte(dest, w0+3) == uint8(payloadCrc >> 24)
+
+// Payloads above 131071 bytes are refused before anything is written.
+//@ func (*codec).EncodeSegment
+//@   prop C06
+//@   requires seg: segment.Header != nil && segment.Payload != nil
+//@   let w0 = written(dest)
+//@   let n = len(segment.Payload.UncompressedData)
+//@   ensures refused: n > 131071 ==> err != nil && written(dest) == w0
+
+// A payload compressor touches only the two streams it is given (a bound on the compressed size is not under proof,
+// so encodeSegmentCompressed's use of the 32-bit length field is not covered)
+// (segment payloads are at most 131071 bytes, so the compressed length always fits the 32-bit header field).
+
+//@ iface PayloadCompressor.Compress
+//@   prop C06, C08
+//@   assigns rstream(source), wstream(dest)
+
+//@ iface PayloadCompressor.Decompress
+//@   prop C06, C08
+//@   assigns rstream(source), wstream(dest)
+
+// ---- read side -----------------------------------------------------------------------------------------------
+
+// decodeSegmentHeader succeeds only if all 24 bits of the received CRC equal the CRC-24 of the received header
+// bytes, and every field it returns is a function of those header bytes (C07); the fields follow the v5 layout.
 
 //@ func (*codec).decodeSegmentHeader
 //@   prop C04, C06, C07
+//@   assigns rstream(source)
+//@   unroll #0 5
+//@   unroll #1 3
+//@   let p0 = pos(source)
 //@   ensures nonnil: err == nil ==> result0 != nil
-//@   ensures lens: err == nil ==> 0 <= result0.CompressedPayloadLength && result0.CompressedPayloadLength <= 131071 && 0 <= result0.UncompressedPayloadLength && result0.UncompressedPayloadLength <= 131071
+//@   ensures lens: err == nil ==> lensOk(result0)
+//@   ensures crcU: err == nil && c.compressor == nil ==> uint64(crc.ChecksumKoopman(rle3(source, p0), 3)) == rle3(source, p0 + 3) && pos(source) == p0 + 6
+//@   ensures crcC: err == nil && c.compressor != nil ==> uint64(crc.ChecksumKoopman(rle5(source, p0), 5)) == rle3(source, p0 + 5) && pos(source) == p0 + 8
+//@   ensures fieldsU: err == nil && c.compressor == nil ==> result0.CompressedPayloadLength == 0 && uint64(result0.UncompressedPayloadLength) == rle3(source, p0) & 0x1FFFF && result0.IsSelfContained == ((rle3(source, p0) >> 17) & 1 == 1)
+//@   ensures fieldsC: err == nil && c.compressor != nil ==> result0.IsSelfContained == ((rle5(source, p0) >> 34) & 1 == 1) && ite((rle5(source, p0) >> 17) & 0x1FFFF == 0, result0.CompressedPayloadLength == 0 && uint64(result0.UncompressedPayloadLength) == rle5(source, p0) & 0x1FFFF, uint64(result0.CompressedPayloadLength) == rle5(source, p0) & 0x1FFFF && uint64(result0.UncompressedPayloadLength) == (rle5(source, p0) >> 17) & 0x1FFFF)
+//@   ensures rejects: c.compressor == nil && avail(source) - p0 >= 6 && uint64(crc.ChecksumKoopman(rle3(source, p0), 3)) != rle3(source, p0 + 3) ==> err != nil
+
+// decodeSegmentPayload accepts only if all 32 bits of the received CRC equal the seeded CRC-32 of the payload bytes
+// exactly as transmitted (before any decompression), and consumes payload length + 4 bytes.
 
 //@ func (*codec).decodeSegmentPayload
 //@   prop C04, C06, C07
-//@   requires lens: 0 <= header.CompressedPayloadLength && header.CompressedPayloadLength <= 131071 && 0 <= header.UncompressedPayloadLength && header.UncompressedPayloadLength <= 131071
+//@   assigns rstream(source)
+//@   requires lens: lensOk(header)
+//@   let p0 = pos(source)
+//@   let n = ite(c.compressor == nil || header.CompressedPayloadLength == 0, header.UncompressedPayloadLength, header.CompressedPayloadLength)
 //@   ensures nonnil: err == nil ==> result0 != nil
+//@   ensures consumed: err == nil ==> pos(source) == p0 + Z(n) + 4
+//@   ensures crc32: err == nil ==> uint64(crc32of(crc.initialChecksum, rwin(source, p0, n), n)) == uint64(rbyte(source, p0 + Z(n))) | uint64(rbyte(source, p0 + Z(n) + 1)) << 8 | uint64(rbyte(source, p0 + Z(n) + 2)) << 16 | uint64(rbyte(source, p0 + Z(n) + 3)) << 24
+//@   ensures crcField: err == nil ==> result0.Crc32 == crc32of(crc.initialChecksum, rwin(source, p0, n), n)
+//@   ensures plain: err == nil && (c.compressor == nil || header.CompressedPayloadLength == 0) ==> Z(len(result0.UncompressedData)) == Z(n)
+
+// The uncompressed segment: 6-byte header, the payload as is, CRC-32 of the payload little-endian.
+
+//@ func (*codec).encodeSegmentUncompressed
+//@   prop C06
+//@   assigns wstream(dest), segment.Header.CompressedPayloadLength, segment.Payload.Crc32
+//@   ensures payload: err == nil ==> forall k int :: 0 <= k && k < n ==> wbyte(dest, w0 + 6 + k) == segment.Payload.UncompressedData[k]
+//@   requires seg: segment.Header != nil && segment.Payload != nil
+//@   requires len: len(segment.Payload.UncompressedData) <= 131071 && Z(segment.Header.UncompressedPayloadLength) == Z(len(segment.Payload.UncompressedData))
+//@   let w0 = written(dest)
+//@   let n = len(segment.Payload.UncompressedData)
+//@   ensures length: err == nil ==> written(dest) == w0 + 6 + n + 4
+//@   ensures fields: err == nil ==> segment.Header.CompressedPayloadLength == 0 && Z(segment.Header.UncompressedPayloadLength) == Z(n)
+//@   ensures trailer: err == nil ==> segment.Payload.Crc32 == crc32of(crc.initialChecksum, win(segment.Payload.UncompressedData), n) && wbyte(dest, w0 + 6 + n) == uint8(segment.Payload.Crc32) && wbyte(dest, w0 + 6 + n + 1) == uint8(segment.Payload.Crc32 >> 8) && wbyte(dest, w0 + 6 + n + 2) == uint8(segment.Payload.Crc32 >> 16) && wbyte(dest, w0 + 6 + n + 3) == uint8(segment.Payload.Crc32 >> 24)
+
+// ---- round trip of the header (lemma over the two contracts) ---------------------------------------------------
+
+func lemmaHeaderRoundTripUncompressed(c *codec, h *Header) (*Header, error) {
+	buf := &bytes.Buffer{}
+	if err := c.encodeHeaderUncompressed(h, buf); err != nil {
+		return nil, err
+	}
+	return c.decodeSegmentHeader(bytes.NewReader(buf.Bytes()))
+}
+
+func lemmaHeaderRoundTripCompressed(c *codec, h *Header) (*Header, error) {
+	buf := &bytes.Buffer{}
+	if err := c.encodeHeaderCompressed(h, buf); err != nil {
+		return nil, err
+	}
+	return c.decodeSegmentHeader(bytes.NewReader(buf.Bytes()))
+}
+
+//@ func lemmaHeaderRoundTripUncompressed
+//@   prop C06
+//@   requires plain: c.compressor == nil
+//@   requires lens: lensOk(h) && h.CompressedPayloadLength == 0
+//@   ensures same: result1 == nil ==> result0 != nil && result0.UncompressedPayloadLength == h.UncompressedPayloadLength && result0.IsSelfContained == h.IsSelfContained && result0.CompressedPayloadLength == 0
+
+// With a compressor the header carries both lengths; "uncompressed length 0" is the fallback signal (payload sent
+// uncompressed), which the decoder turns back into uncompressed length = transmitted length, compressed length 0.
+//@ func lemmaHeaderRoundTripCompressed
+//@   prop C06
+//@   requires lz4: c.compressor != nil
+//@   requires lens: lensOk(h)
+//@   ensures flag: result1 == nil ==> result0 != nil && result0.IsSelfContained == h.IsSelfContained
+//@   ensures compressed: result1 == nil && h.UncompressedPayloadLength != 0 ==> result0.UncompressedPayloadLength == h.UncompressedPayloadLength && result0.CompressedPayloadLength == h.CompressedPayloadLength
+//@   ensures fallback: result1 == nil && h.UncompressedPayloadLength == 0 ==> result0.UncompressedPayloadLength == h.CompressedPayloadLength && result0.CompressedPayloadLength == 0
